@@ -158,4 +158,36 @@ theorem grouped_eq_flat (m : SModel) (q : Query) (rows : List Row) (hpk : PkOK m
   simp only [Function.comp, flatAgg_name]
   rw [metric_eq m a.1 a.2 kg.2 (hgroups kg hkg)]
 
+theorem flatAgg_e_eval (m : SModel) (ms : Measure) (n : String) (r : Row) :
+    (flatAgg m ms n).e.eval r =
+      (if countsRows ms then .num 1 else if countsKeys ms then (pkExpr m).eval r else (measureExpr m ms).eval r) := by
+  unfold flatAgg; simp only
+  split
+  · rfl
+  · split <;> rfl
+
+theorem rawItem_eval (m : SModel) (ms : Measure) (n : String) (r : Row) :
+    (rawItem m ms n).e.eval r =
+      (if passesMetricFilters ms r then
+         (if countsRows ms then .num 1 else if countsKeys ms then (pkExpr m).eval r else (measureExpr m ms).eval r)
+       else .null) := by
+  rw [← cond_eq m ms n r, ← flatAgg_e_eval m ms n r]
+  unfold rawItem
+  cases hc : (flatAgg m ms n).cond with
+  | none => simp only [condHolds, if_true]
+  | some c => simp only [condHolds, Expr.eval]; rfl
+
+/-- **Ungrouped spec in flat form.** -/
+theorem ungrouped_eq_flatRaw (m : SModel) (q : Query) (rows : List Row) :
+    ungrouped m q rows = (flatRaw m q).eval rows := by
+  unfold ungrouped FlatRaw.eval flatRaw
+  apply List.map_congr_left
+  intro r _
+  simp only [List.map_append, List.map_map]
+  congr 1
+  apply List.map_congr_left
+  intro a _
+  simp only [Function.comp, rawItem_eval]
+  rfl
+
 end SideVerif.Spec
